@@ -35,6 +35,7 @@ type c03Case struct {
 	Kind   string       `json:"kind"`   // how the probe bytes were made
 	Script vconn.Script `json:"script"` // the probe (End is always "hold": the prober never closes)
 	Total  int          `json:"total_bytes"`
+	SweepAt int         `json:"sweep_at,omitempty"` // > 0: before the SweepAt-th segment is read every registration passes its lifetime and the sweeper runs (the phantom has none left while the connection is still open)
 }
 
 var c03Lookalikes = [][]byte{
@@ -194,6 +195,9 @@ func c03Gen(rt *rapid.T, e *aEnv) c03Case {
 	if c.V6 {
 		c.Script.Remote = "[2001:db8::77]:5555"
 	}
+	if len(steps) > 1 && rapid.IntRange(0, 3).Draw(rt, "sweepmid") == 0 {
+		c.SweepAt = rapid.IntRange(1, len(steps)-1).Draw(rt, "sweepat")
+	}
 	return c
 }
 
@@ -317,7 +321,18 @@ func c03Check(t vh.Fataler, rec *vh.Rec, e *aEnv, c c03Case) {
 	if err != nil {
 		t.Fatalf("harness problem: setup: %v", err)
 	}
-	conn := vconn.New(c.Script)
+	script := c.Script
+	if c.SweepAt > 0 && c.SweepAt < len(script.Reads) {
+		script.Reads = append([]vconn.Step(nil), script.Reads...)
+		script.Reads[c.SweepAt].Hook = "sweep"
+	}
+	conn := vconn.New(script)
+	swept := false
+	conn.OnHook = func(string) {
+		cj.VerifShiftTimes(ne.rm, 7*time.Hour)
+		ne.rm.RemoveOldRegistrations()
+		swept = true
+	}
 	ph := aPhantom(0, c.V6)
 	onPhantom := ne.rm.CountRegistrations(ph)
 	ok, pan, dur := ne.aRunHandler(conn, ph, 40*time.Second)
@@ -331,6 +346,9 @@ func c03Check(t vh.Fataler, rec *vh.Rec, e *aEnv, c c03Case) {
 		classes = append(classes, "read-loop-timeout")
 	}
 	nontrivial := onPhantom > 0 && c.Total >= 32
+	if swept && onPhantom > 0 {
+		classes = append(classes, "registrations-swept-during-connection")
+	}
 	rec.Case(nontrivial, vh.Digest(c), c, classes...)
 	if key == "harness" {
 		t.Fatalf("harness problem: %s", msg)
@@ -341,9 +359,9 @@ func c03Check(t vh.Fataler, rec *vh.Rec, e *aEnv, c c03Case) {
 }
 
 func TestVerif_C03_probes(t *testing.T) {
-	rec := vh.NewRec("C03", "probes", "rapid-generated probe streams (random / look-alike / static prefix + garbage / genuine flight with one bit flipped / genuine flight for another phantom, an unvalidated or an unknown registration / >=8192 random bytes) with drawn segmentation and virtual pauses against drawn registries; non-trivial = probe of >=32 bytes against a phantom that has registrations; distinct by whole case")
+	rec := vh.NewRec("C03", "probes", "rapid-generated probe streams (random / look-alike / static prefix + garbage / genuine flight with one bit flipped / genuine flight for another phantom, an unvalidated or an unknown registration / >=8192 random bytes) with drawn segmentation and virtual pauses against drawn registries, in a quarter of the multi-segment cases every registration expires and is swept between two segments; non-trivial = probe of >=32 bytes against a phantom that has registrations; distinct by whole case")
 	defer rec.Flush()
-	rec.Require("no-reg-drain", "ran-out-of-transports-drain", "read-loop-timeout", "kind:flip-genuine", "kind:wrong-phantom", "kind:unvalidated", "kind:static+garbage")
+	rec.Require("no-reg-drain", "ran-out-of-transports-drain", "read-loop-timeout", "kind:flip-genuine", "kind:wrong-phantom", "kind:unvalidated", "kind:static+garbage", "registrations-swept-during-connection")
 	defer aSilenceStdout()()
 	e := aNewEnv(t)
 	if p := vh.ReplayFile(); p != "" {
